@@ -249,6 +249,9 @@ type RestrictedPrefixPermutationIterator struct {
 
 	l []int
 	u []int
+
+	//done is set when Next returns false so that it keeps returning false.
+	done bool
 }
 
 //RestrictedPrefixPermutations returns an iterator which iterates over all permutations a_1 a_2 ... a_n of {0, ..., n-1} which pass the tests f([]int{a_1}), f([]int{a_1,a_2}) ... f([]int{a_1,...,a_n}).
@@ -273,6 +276,10 @@ func (iter *RestrictedPrefixPermutationIterator) Next() bool {
 	k := n - 1
 	p := 0
 	q := 0
+
+	if iter.done {
+		return false
+	}
 
 	//Initialise
 	if iter.a == nil {
@@ -316,6 +323,7 @@ x5:
 x6:
 	k--
 	if k < 0 {
+		iter.done = true
 		return false
 	}
 	p = iter.u[k]
